@@ -110,6 +110,9 @@ type analysis struct {
 	l3Lines          int  // distinct 128-byte lines the run touches
 	l3StoreShared    bool // a 128-byte line is stored to and touched by another memory instruction
 	storeMissFill    bool // F01 predicate (variant-independent part)
+	// ... and the store is not the first possibly-missing store of the run: a
+	// write unit may still be busy with an earlier one
+	storeMissFillHot bool
 	shadowError      bool // a wrong path reaches a division by zero
 	shadowWild       bool // a wrong path accesses an address outside memory or misaligned
 	shadowStore      bool // a wrong path holds an in-bounds store
@@ -166,16 +169,28 @@ func analyse(c *gen.Case, r *ref.Result, storeSlow, loadSlow, prefSlow bool) *an
 		loaded := map[int32]bool{}
 		missStored := map[int32]bool{}
 		l3 := map[int32]bool{}
+		hotStored := map[int32]bool{}
+		sawMissStore := false
 		for _, s := range tr {
 			line := s.Addr / 64
 			if s.Load {
 				if missStored[line] {
 					a.storeMissFill = true
 				}
+				if hotStored[line] {
+					a.storeMissFillHot = true
+				}
 				loaded[line] = true
 			}
 			if s.Store && !(loaded[line] && len(loaded) <= 16) {
 				missStored[line] = true
+				// a store miss is visible as soon as an idle write unit takes it; it
+				// waits on the write bus — invisible to a fill — only while the write
+				// units are busy with earlier store misses
+				if sawMissStore {
+					hotStored[line] = true
+				}
+				sawMissStore = true
 			}
 			if s.Load || s.Store {
 				a.anyMem = true
@@ -222,6 +237,48 @@ func analyse(c *gen.Case, r *ref.Result, storeSlow, loadSlow, prefSlow bool) *an
 			}
 			if s.Rd > 0 {
 				fromLoad[s.Rd] = s.Load || t
+			}
+		}
+	}
+	// --- jumps that may be known to the branch target buffer before their
+	// first architectural execution: a jump on the wrong path of a taken
+	// conditional branch can execute (and be learned) before the branch
+	// resolves; the flush squashes it but not the buffer entry. Every taken
+	// branch is treated as slow here (the wrong path is followed through jumps).
+	specJump := map[int]bool{}
+	{
+		any := false
+		for _, s := range tr {
+			if s.CondBr && s.Taken {
+				any = true
+			}
+		}
+		if any {
+			m := ref.NewMachine(&c.Prog, c.Init())
+			for _, s := range tr {
+				if s.CondBr && s.Taken {
+					w := m.Clone()
+					w.Pc = s.Pc
+					for k := 0; k < shadowDepth+1; k++ {
+						idx := int(w.Pc / 4)
+						if w.Pc < 0 || idx >= len(c.Prog.Ins) {
+							break
+						}
+						in := c.Prog.Ins[idx]
+						if k > 0 && in.IsJump() {
+							specJump[idx] = true
+						}
+						if k > 0 && in.Op == "ret" {
+							break
+						}
+						if _, ok := w.Step(!in.IsJump()); !ok { // conditional branches fall through, jumps are followed
+							break
+						}
+					}
+				}
+				if _, ok := m.Step(false); !ok {
+					break
+				}
 			}
 		}
 	}
@@ -343,7 +400,7 @@ func analyse(c *gen.Case, r *ref.Result, storeSlow, loadSlow, prefSlow bool) *an
 			brUncommitted[i] = sinceBr
 		}
 		firstJump := false
-		if s.Jump && !jumpSeen[s.Idx] && os.Getenv("VERIF_NOJUMPDRAIN") == "" {
+		if s.Jump && !jumpSeen[s.Idx] && !specJump[s.Idx] && os.Getenv("VERIF_NOJUMPDRAIN") == "" {
 			// a jump met for the first time misses the branch target buffer and
 			// flushes like a mispredicted branch (older instructions complete first)
 			jumpSeen[s.Idx] = true
@@ -458,11 +515,14 @@ func analyse(c *gen.Case, r *ref.Result, storeSlow, loadSlow, prefSlow bool) *an
 							// has not read yet (renaming lets it through)
 							a.renameOrder = true
 						}
-						if in.IsJump() || in.Op == "ret" {
-							break // decode stalls at an unconditional jump and stops at a ret
+						if in.Op == "ret" || (in.IsJump() && !slow[i]) {
+							// decode stalls at an unconditional jump and stops at a ret; behind
+							// a slow branch the jump resolves long before the branch does and
+							// the wrong path continues at its target
+							break
 						}
 					}
-					if _, ok := w.Step(true); !ok {
+					if _, ok := w.Step(!in.IsJump()); !ok { // conditional branches fall through, jumps are followed
 						break
 					}
 				}
@@ -490,7 +550,10 @@ func trigStoreMissThenFill(a *analysis, cfg sim.Config) bool {
 	if !(cfg.Variant == "mvp4" || cfg.Variant == "mvp5" || is6(cfg.Variant)) {
 		return false
 	}
-	return a.storeMissFill
+	if os.Getenv("VERIF_STRICT_F01") != "" {
+		return a.storeMissFill // development aid: the conservative predicate
+	}
+	return a.storeMissFillHot
 }
 
 var (
